@@ -153,6 +153,7 @@ class CondList(list):
 
 
 class State:
+    cur_block = None
     __slots__ = ('env', 'store', 'conds', 'events', 'visits', 'ctr', 'epoch', 'ended', 'ret', 'depth', 'notes')
 
     def __init__(self):
@@ -189,6 +190,7 @@ class State:
         kw['k'] = kind
         kw['i'] = len(self.events)
         kw['epoch'] = self.epoch
+        kw.setdefault('block', State.cur_block)
         self.events.append(kw)
         return kw
 
@@ -755,6 +757,7 @@ class Engine:
                 args = [self.operand(st, fn, frame, a) for a in t['args']]
                 f = t['f']
                 site = (fn.dp, b)
+                State.cur_block = b
 
                 def after(s, rv, t=t, fn=fn, frame=frame, cont=cont, k=k):
                     if k == 'tailcall':
